@@ -7,31 +7,12 @@ Row layer (`gather`, `runEvents`, `runConcat`): for EVERY list of levels, every 
 of events (induction).  Context layer (`addStratification`, `stratify`, `gatherEvent`, `runSim`): for every
 registered stratification list and every event.  `observation_conserves` joins the two: the hypotheses of
 the row-layer theorems (distinct categories, every eligible row's stratum is one of the reported rows) are
-established by the context layer itself. -/
+established by the context layer itself; `simulation_result` states the property for a whole run of the
+context (`postSetup` + `runSim`). -/
 namespace Viv.Props.C16
 open Viv.Results
 
 /-! ### each eligible simulant lies in exactly one stratum -/
-
-theorem filter_eq_length_one {β : Type} [DecidableEq β] (l : List β) (hnd : l.Nodup) (a : β) (h : a ∈ l) :
-    (l.filter (fun k => decide (a = k))).length = 1 := by
-  induction l with
-  | nil => cases h
-  | cons c cs ih =>
-    rw [List.nodup_cons] at hnd
-    by_cases hc : a = c
-    · subst hc
-      have : cs.filter (fun k => decide (a = k)) = [] := by
-        rw [List.filter_eq_nil_iff]
-        intro k hk
-        have : a ≠ k := fun e => hnd.1 (e ▸ hk)
-        simp [this]
-      simp [this]
-    · have hmem : a ∈ cs := by
-        rcases List.mem_cons.mp h with e | e
-        · exact absurd e hc
-        · exact e
-      simp [hc, ih hnd.2 hmem]
 
 /-- an eligible simulant whose categories are among the levels belongs to exactly one of the reported
 strata (rows of the result). -/
@@ -87,10 +68,6 @@ theorem increment_per_stratum (levels : List (List String)) (rows : List Row) :
 theorem to_observe_false_no_increment (levels : List (List String)) (acc : Table) (rows : List Row) :
     gather levels false acc rows = acc := by
   unfold gather; split <;> simp
-
-theorem stratumSum_of_no_eligible (k : Key) (rows : List Row) (h : rows.filter Row.eligible = []) :
-    stratumSum k rows = 0 := by
-  simp [stratumSum, h]
 
 /-- an event without eligible simulants leaves the results alone (`if filtered_pop.empty`) -/
 theorem no_eligible_no_increment (levels : List (List String)) (t : Bool) (acc : Table) (rows : List Row)
@@ -603,68 +580,265 @@ theorem observation_conserves (ss : List Strat) (hss : ∀ s ∈ ss, s.cats.Nodu
       eligibleSum (mkRows names rows mapped passes vals) :=
   sum_conservation _ (levelsOf_nodup ss hss names) _ (mkRows_valid ss rows mapped h names passes vals)
 
-/-! ### which stratifications an observation uses (`_get_stratifications`) -/
+/-! ### from `gather_results` of the manager down to the row layer -/
 
-theorem mem_insertSorted (a b : String) (l : List String) : b ∈ insertSorted a l ↔ b = a ∨ b ∈ l := by
-  induction l with
-  | nil => simp [insertSorted]
-  | cons c t ih =>
-    unfold insertSorted
-    split
-    · simp
-    · simp only [List.mem_cons, ih]
-      constructor
-      · rintro (h | h | h)
-        · exact .inr (.inl h)
-        · exact .inl h
-        · exact .inr (.inr h)
-      · rintro (h | h | h)
-        · exact .inr (.inl h)
-        · exact .inl h
-        · exact .inr (.inr h)
+/-- what `gather_results` does to ONE adding observation of the phase: exactly the row-layer `gather` on the
+rows built from the stratified population – independently of the other observations processed in the same
+event (observation names are unique: `register_observation` refuses duplicates) -/
+theorem foldl_stepObs_adding (time : Int) (rows : List RawRow) (mapped : List (List (String × Option String)))
+    (inputs : List ObsInput) (os : List Obs) (hnd : (os.map (·.name)).Nodup) (c : Ctx) (o : Obs) (ho : o ∈ os)
+    (hk : o.kind = .adding) (i : ObsInput) (hi : inputs.find? (fun i => i.name = o.name) = some i)
+    (acc : Table) (hacc : getAssoc o.name c.adding = some acc) :
+    getAssoc o.name (os.foldl (stepObs time rows mapped inputs) c).adding =
+      some (gather (levelsOf c.strats o.strats) i.toObserve acc (mkRows o.strats rows mapped i.passes i.vals)) := by
+  induction os generalizing c with
+  | nil => cases ho
+  | cons o0 os ih =>
+    rw [List.map_cons, List.nodup_cons] at hnd
+    rw [List.foldl_cons]
+    rcases List.mem_cons.mp ho with heq | hmem
+    · subst heq
+      have hothers : ∀ o' ∈ os, o'.name ≠ o.name := by
+        intro o' ho' he
+        exact hnd.1 (he ▸ List.mem_map_of_mem ho')
+      rw [(foldl_stepObs_frame time rows mapped inputs os _ o.name hothers).1]
+      unfold stepObs
+      rw [hi]
+      unfold observeOne
+      rw [hk]
+      simp only [hacc]
+      exact getAssoc_setAssoc_eq _ _ _ _ hacc
+    · have hne : o0.name ≠ o.name := by
+        intro he
+        exact hnd.1 (he ▸ List.mem_map_of_mem hmem)
+      have h0 := stepObs_frame time rows mapped inputs c o0 o.name hne
+      have := ih hnd.2 (stepObs time rows mapped inputs c o0) hmem (h0.1.trans hacc)
+      rw [h0.2] at this
+      exact this
 
-theorem mem_sortStrings (b : String) (l : List String) : b ∈ sortStrings l ↔ b ∈ l := by
-  induction l with
-  | nil => simp [sortStrings]
-  | cons c t ih =>
-    simp only [sortStrings, List.foldr_cons, mem_insertSorted, List.mem_cons] at ih ⊢
-    rw [ih]
+theorem gatherEvent_adding (c c' : Ctx) (phase : String) (time : Int) (rows : List RawRow) (inputs : List ObsInput)
+    (hne : (rows.filter (·.inEvent)).isEmpty = false)
+    (h : gatherEvent c phase time rows inputs = .ok c')
+    (hnd : (c.obs.map (·.name)).Nodup) (o : Obs) (ho : o ∈ c.obs) (hph : o.phase = phase)
+    (hk : o.kind = .adding) (i : ObsInput) (hi : inputs.find? (fun i => i.name = o.name) = some i)
+    (acc : Table) (hacc : getAssoc o.name c.adding = some acc) :
+    ∃ mapped, stratifyAll c.strats rows = .ok mapped ∧
+      getAssoc o.name c'.adding =
+        some (gather (levelsOf c.strats o.strats) i.toObserve acc (mkRows o.strats rows mapped i.passes i.vals)) := by
+  unfold gatherEvent at h
+  rw [hne] at h
+  simp only [Bool.false_eq_true, if_false] at h
+  cases hs : stratifyAll c.strats rows with
+  | error e => rw [hs] at h; simp [bind, Except.bind] at h
+  | ok mapped =>
+    rw [hs] at h
+    simp only [bind, Except.bind, pure, Except.pure] at h
+    cases h
+    refine ⟨mapped, rfl, ?_⟩
+    have hsub : ((c.obs.filter (fun o => o.phase = phase)).map (·.name)).Nodup :=
+      List.Nodup.sublist (List.Sublist.map _ List.filter_sublist) hnd
+    have hmem : o ∈ c.obs.filter (fun o => o.phase = phase) := List.mem_filter.mpr ⟨ho, by simp [hph]⟩
+    exact foldl_stepObs_adding time rows mapped inputs _ hsub c o hmem hk i hi acc hacc
 
-theorem nodup_eraseDups (l : List String) : l.eraseDups.Nodup := by
-  generalize hn : l.length = n
-  induction n using Nat.strongRecOn generalizing l with
-  | _ n ih =>
-    cases l with
-    | nil => simp
-    | cons a as =>
-      rw [List.eraseDups_cons, List.nodup_cons]
-      constructor
-      · rw [List.mem_eraseDups, List.mem_filter]; simp
-      · subst hn
-        exact ih _ (Nat.lt_succ_of_le (List.length_filter_le _ _)) _ rfl
+/-- the sum over all strata grows by exactly the aggregate over the eligible simulants of the event (when
+observed), whatever the running totals were -/
+theorem gather_conserves (levels : List (List String)) (hnd : ∀ l ∈ levels, l.Nodup) (a : Key → Int) (t : Bool)
+    (rows : List Row) (hvalid : ∀ r ∈ rows, r.eligible = true → r.key ∈ product levels) :
+    ((gather levels t ((product levels).map fun k => (k, a k)) rows).map (·.2)).sum =
+      (((product levels).map fun k => (k, a k)).map (·.2)).sum + (if t then eligibleSum rows else 0) := by
+  have := gather_map levels a (t, rows)
+  simp only at this
+  rw [this, List.map_map, List.map_map]
+  have h1 : ((product levels).map ((fun x : Key × Int => x.2) ∘ fun k => (k, a k + eventTerm k (t, rows)))) =
+      (product levels).map (fun k => a k + eventTerm k (t, rows)) := rfl
+  have h2 : ((product levels).map ((fun x : Key × Int => x.2) ∘ fun k => (k, a k))) = (product levels).map a := rfl
+  rw [h1, h2, sum_map_add]
+  congr 1
+  unfold eventTerm
+  cases t
+  · simp; exact sum_map_zero _ _ (fun _ _ => rfl)
+  · simp only [if_true]
+    have := sum_conservation levels hnd rows hvalid
+    rw [increment_eq, List.map_map] at this
+    exact this
 
-theorem nodup_insertSorted (a : String) (l : List String) (h : a ∉ l) (hl : l.Nodup) : (insertSorted a l).Nodup := by
-  induction l with
-  | nil => simp [insertSorted]
-  | cons c t ih =>
-    rw [List.nodup_cons] at hl
-    unfold insertSorted
-    split
-    · rw [List.nodup_cons]; exact ⟨h, List.nodup_cons.mpr hl⟩
-    · rw [List.nodup_cons, mem_insertSorted]
-      refine ⟨?_, ih (fun hm => h (List.mem_cons_of_mem _ hm)) hl.2⟩
-      rintro (e | e)
-      · exact h (e ▸ List.mem_cons_self)
-      · exact hl.1 e
+/-- each eligible simulant handed to an observation by the context lies in exactly one reported stratum -/
+theorem eligible_row_in_exactly_one_stratum (ss : List Strat) (hss : ∀ s ∈ ss, s.cats.Nodup) (rows : List RawRow)
+    (mapped : List (List (String × Option String))) (h : stratifyAll ss rows = .ok mapped)
+    (names : List String) (passes : List Bool) (vals : List Int) :
+    ∀ r ∈ mkRows names rows mapped passes vals, r.eligible = true →
+      ((product (levelsOf ss names)).filter (fun k => decide (r.key = k))).length = 1 :=
+  fun r hr hel => partition_unique _ (levelsOf_nodup ss hss names) r (mkRows_valid ss rows mapped h names passes vals r hr hel)
 
-theorem nodup_sortStrings (l : List String) (hl : l.Nodup) : (sortStrings l).Nodup := by
-  induction l with
-  | nil => simp [sortStrings]
-  | cons c t ih =>
-    rw [List.nodup_cons] at hl
-    have : sortStrings (c :: t) = insertSorted c (sortStrings t) := rfl
+/-! ### the whole simulation, seen from one adding observation -/
+
+/-- the stratified population of an event (`[]` if stratification fails – then the event raises anyway) -/
+def mappedOf (ss : List Strat) (rows : List RawRow) : List (List (String × Option String)) :=
+  match stratifyAll ss rows with
+  | .ok m => m
+  | .error _ => []
+
+/-- one simulation event as seen by ONE adding observation: a row-layer event `(to_observe?, rows)`;
+events of other phases, events nobody is in, and events without input for the observation contribute nothing -/
+def eventFor (ss : List Strat) (o : Obs) (ev : String × Int × List RawRow × List ObsInput) : Bool × List Row :=
+  if ev.1 = o.phase ∧ (ev.2.2.1.filter (·.inEvent)).isEmpty = false then
+    match ev.2.2.2.find? (fun i => i.name = o.name) with
+    | some i => (i.toObserve, mkRows o.strats ev.2.2.1 (mappedOf ss ev.2.2.1) i.passes i.vals)
+    | none => (false, [])
+  else (false, [])
+
+theorem gatherEvent_entry (c c' : Ctx) (ev : String × Int × List RawRow × List ObsInput)
+    (h : gatherEvent c ev.1 ev.2.1 ev.2.2.1 ev.2.2.2 = .ok c')
+    (hnd : (c.obs.map (·.name)).Nodup) (o : Obs) (ho : o ∈ c.obs) (hk : o.kind = .adding)
+    (acc : Table) (hacc : getAssoc o.name c.adding = some acc) :
+    c'.obs = c.obs ∧ c'.strats = c.strats ∧
+    getAssoc o.name c'.adding =
+      some (gather (levelsOf c.strats o.strats) (eventFor c.strats o ev).1 acc (eventFor c.strats o ev).2) := by
+  obtain ⟨ph, time, rows, inputs⟩ := ev
+  simp only at h
+  by_cases hempty : (rows.filter (·.inEvent)).isEmpty = true
+  · -- nobody in the event
+    unfold gatherEvent at h
+    rw [if_pos hempty] at h
+    cases h
+    refine ⟨rfl, rfl, ?_⟩
+    have : eventFor c.strats o (ph, time, rows, inputs) = (false, []) := by
+      unfold eventFor; simp [hempty]
+    rw [this, to_observe_false_no_increment]; exact hacc
+  · have hne : (rows.filter (·.inEvent)).isEmpty = false := by simpa using hempty
+    unfold gatherEvent at h
+    rw [if_neg hempty] at h
+    cases hs : stratifyAll c.strats rows with
+    | error e => rw [hs] at h; simp [bind, Except.bind] at h
+    | ok mapped =>
+      rw [hs] at h
+      simp only [bind, Except.bind, pure, Except.pure] at h
+      cases h
+      have hfr := foldl_stepObs_obs time rows mapped inputs (c.obs.filter (fun o => o.phase = ph)) c
+      refine ⟨hfr.1, hfr.2, ?_⟩
+      have hmapped : mappedOf c.strats rows = mapped := by simp [mappedOf, hs]
+      have hsub : ((c.obs.filter (fun o => o.phase = ph)).map (·.name)).Nodup :=
+        List.Nodup.sublist (List.Sublist.map _ List.filter_sublist) hnd
+      by_cases hph : ph = o.phase
+      · have hmem : o ∈ c.obs.filter (fun o => o.phase = ph) := List.mem_filter.mpr ⟨ho, by simp [hph]⟩
+        cases hi : inputs.find? (fun i => i.name = o.name) with
+        | some i =>
+          have : eventFor c.strats o (ph, time, rows, inputs) =
+              (i.toObserve, mkRows o.strats rows mapped i.passes i.vals) := by
+            unfold eventFor; simp [hph, hne, hi, hmapped]
+          rw [this]
+          exact foldl_stepObs_adding time rows mapped inputs _ hsub c o hmem hk i hi acc hacc
+        | none =>
+          have : eventFor c.strats o (ph, time, rows, inputs) = (false, []) := by
+            unfold eventFor; simp [hph, hne, hi]
+          rw [this, to_observe_false_no_increment]
+          -- no input: `stepObs` skips the observation, the others do not touch its entry
+          have key : ∀ (os : List Obs) (c0 : Ctx), getAssoc o.name c0.adding = some acc →
+              (∀ o' ∈ os, o'.name = o.name → o' = o) →
+              getAssoc o.name (os.foldl (stepObs time rows mapped inputs) c0).adding = some acc := by
+            intro os
+            induction os with
+            | nil => intro c0 h0 _; exact h0
+            | cons o0 os ih =>
+              intro c0 h0 hall
+              rw [List.foldl_cons]
+              apply ih
+              · by_cases hn : o0.name = o.name
+                · have := hall o0 List.mem_cons_self hn
+                  subst this
+                  unfold stepObs; rw [hi]; exact h0
+                · exact ((stepObs_frame time rows mapped inputs c0 o0 o.name hn).1).trans h0
+              · exact fun o' ho' => hall o' (List.mem_cons_of_mem _ ho')
+          exact key _ c hacc (fun o' ho' hn => eq_of_name_eq hnd (List.mem_filter.mp ho').1 ho hn)
+      · have : eventFor c.strats o (ph, time, rows, inputs) = (false, []) := by
+          unfold eventFor; simp [hph]
+        rw [this, to_observe_false_no_increment]
+        have hothers : ∀ o' ∈ c.obs.filter (fun o => o.phase = ph), o'.name ≠ o.name := by
+          intro o' ho' hn
+          have h1 := List.mem_filter.mp ho'
+          have heq := eq_of_name_eq hnd h1.1 ho hn
+          have h2 : o'.phase = ph := by simpa using h1.2
+          rw [heq] at h2
+          exact hph h2.symm
+        exact ((foldl_stepObs_frame time rows mapped inputs _ c o.name hothers).1).trans hacc
+
+/-- a whole simulation, seen from one adding observation: its raw results after `runSim` are the row-layer fold of
+`gather` over the events as that observation sees them -/
+theorem runSim_adding (c c' : Ctx) (events : List (String × Int × List RawRow × List ObsInput))
+    (h : runSim c events = .ok c') (hnd : (c.obs.map (·.name)).Nodup) (o : Obs) (ho : o ∈ c.obs)
+    (hk : o.kind = .adding) (acc : Table) (hacc : getAssoc o.name c.adding = some acc) :
+    getAssoc o.name c'.adding =
+      some ((events.map (eventFor c.strats o)).foldl
+        (fun acc e => gather (levelsOf c.strats o.strats) e.1 acc e.2) acc) := by
+  induction events generalizing c acc with
+  | nil => simp only [runSim] at h; cases h; simpa using hacc
+  | cons ev es ih =>
+    obtain ⟨ph, time, rows, inputs⟩ := ev
+    simp only [runSim] at h
+    cases hg : gatherEvent c ph time rows inputs with
+    | error e => rw [hg] at h; simp [bind, Except.bind] at h
+    | ok c1 =>
+      rw [hg] at h
+      simp only [bind, Except.bind] at h
+      obtain ⟨hobs, hstr, hent⟩ := gatherEvent_entry c c1 (ph, time, rows, inputs) hg hnd o ho hk acc hacc
+      have := ih c1 h (hobs ▸ hnd) (hobs ▸ ho) _ hent
+      rw [hstr] at this
+      simpa using this
+
+/-- the property for a whole simulation: after `on_post_setup` and any sequence of events that did not raise,
+the reported result of an adding observation has one row per combination of its non-excluded categories and
+each value is the sum over the events of that event's increment -/
+theorem simulation_result (c0 c c' : Ctx) (events : List (String × Int × List RawRow × List ObsInput))
+    (hsetup : postSetup c0 = .ok c) (h : runSim c events = .ok c') (hnd : (c0.obs.map (·.name)).Nodup)
+    (o : Obs) (ho : o ∈ c0.obs) (hk : o.kind = .adding) :
+    getAssoc o.name c'.adding =
+      some ((product (levelsOf c0.strats o.strats)).map fun k =>
+        (k, ((events.map (eventFor c0.strats o)).map (eventTerm k)).sum)) := by
+  unfold postSetup at hsetup
+  split at hsetup
+  · cases hsetup
+  · cases hsetup
+    have hacc : getAssoc o.name
+        ((c0.obs.filter (fun o => o.kind = .adding)).map fun o => (o.name, initResults (levelsOf c0.strats o.strats))) =
+        some (initResults (levelsOf c0.strats o.strats)) := by
+      have hmem : o ∈ c0.obs.filter (fun o => o.kind = .adding) := List.mem_filter.mpr ⟨ho, by simp [hk]⟩
+      have hsub : ((c0.obs.filter (fun o => o.kind = .adding)).map (·.name)).Nodup :=
+        List.Nodup.sublist (List.Sublist.map _ List.filter_sublist) hnd
+      generalize c0.obs.filter (fun o => o.kind = .adding) = l at hmem hsub
+      induction l with
+      | nil => cases hmem
+      | cons x xs ih =>
+        rw [List.map_cons, List.nodup_cons] at hsub
+        rcases List.mem_cons.mp hmem with rfl | hm
+        · simp [getAssoc]
+        · have hne : ¬ x.name = o.name := fun e => hsub.1 (e ▸ List.mem_map_of_mem hm)
+          simp only [List.map_cons, getAssoc, List.find?_cons, hne, decide_false]
+          exact ih hm hsub.2
+    have := runSim_adding _ c' events h hnd o ho hk _ hacc
     rw [this]
-    exact nodup_insertSorted c _ (fun hm => hl.1 ((mem_sortStrings c t).mp hm)) (ih hl.2)
+    congr 1
+    exact result_is_sum_of_increments _ _
+
+/-- `register_observation` keeps observation names unique (a duplicate name is refused) -/
+theorem registerObservation_names_nodup (c c' : Ctx) (name phase : String) (kind : Kind) (add exc : List String)
+    (hnd : (c.obs.map (·.name)).Nodup) (h : registerObservation c name phase kind add exc = .ok c') :
+    (c'.obs.map (·.name)).Nodup := by
+  unfold registerObservation at h
+  split at h
+  · cases h
+  · rename_i hdup
+    cases h
+    simp only [List.map_append, List.map_cons, List.map_nil]
+    rw [List.nodup_append]
+    refine ⟨hnd, by simp, ?_⟩
+    intro a ha b hb hab
+    simp at hb; subst hb; subst hab
+    apply hdup
+    rw [List.any_eq_true]
+    obtain ⟨o, ho, rfl⟩ := List.mem_map.mp ha
+    exact ⟨o, ho, by simp⟩
+
+/-! ### which stratifications an observation uses (`_get_stratifications`) -/
 
 /-- no stratification is used twice by one observation -/
 theorem resolve_nodup (d a x : List String) : (resolve d a x).Nodup :=
